@@ -308,6 +308,9 @@ pub struct TransportRecord {
     pub dropped: Arc<AtomicBool>,
     /// the endpoint's reads fail with ECONNRESET from now on (write a byte to wake a pending read)
     pub reset_reads: Arc<AtomicBool>,
+    /// reads that returned end-of-stream; the 1000th fails instead, so that a loop that keeps
+    /// reading a finished stream without ever yielding comes to an end
+    pub eof_reads: Arc<std::sync::atomic::AtomicUsize>,
 }
 
 pub struct RecordedIo {
@@ -326,9 +329,16 @@ impl tokio::io::AsyncRead for RecordedIo {
         if self.rec.reset_reads.load(Ordering::SeqCst) {
             return std::task::Poll::Ready(Err(io::Error::from(io::ErrorKind::ConnectionReset)));
         }
+        let before = buf.filled().len();
         let r = std::pin::Pin::new(&mut self.inner).poll_read(cx, buf);
         if self.rec.reset_reads.load(Ordering::SeqCst) {
             return std::task::Poll::Ready(Err(io::Error::from(io::ErrorKind::ConnectionReset)));
+        }
+        if matches!(r, std::task::Poll::Ready(Ok(()))) && buf.filled().len() == before && buf.remaining() > 0 {
+            let n = self.rec.eof_reads.fetch_add(1, Ordering::SeqCst) + 1;
+            if n >= 1000 {
+                return std::task::Poll::Ready(Err(io::Error::new(io::ErrorKind::Other, "harness: the finished stream was read 1000 times")));
+            }
         }
         r
     }
